@@ -35,6 +35,13 @@ Theorem C12_ops : forall lay u s (o : oracle errno), unit_wf u -> dirs_exist (un
 Proof. exact c12_units. Qed.
 Print Assumptions C12_ops.
 
+(* In particular a failing flush is never acknowledged: if, under some oracle (e.g. fail_at k EIO on an fsync),
+   the executed steps are not durable, the operation does not end normally. *)
+Theorem C12_unflushed_aborts : forall lay u s (o : oracle errno), unit_wf u -> dirs_exist (unit_dirs u) s ->
+  let r := machine_run o (unit_prog lay u) (start s) in ~ durable (done (c_tr (fst r))) -> snd r <> ONorm.
+Proof. exact c12_unflushed_aborts. Qed.
+Print Assumptions C12_unflushed_aborts.
+
 (* _makedirs_synced of ANY path from ANY state: each created level is followed by the fsync of its parent. *)
 Theorem C12_makedirs : forall p s (o : oracle errno),
   let r := machine_run o (MD p) (start s) in snd r = ONorm -> durable (done (c_tr (fst r))).
